@@ -7,7 +7,7 @@ import re, sys
 sys.path.insert(0, '/verif/lib')
 import vlib
 
-TIERS = {'quick': dict(bounds='k2d0+k1d1', horizon=6), 'thorough': dict(bounds='k2d1+k1d2', horizon=8)}
+TIERS = {'quick': dict(bounds='k2d0+k1d1', horizon=6), 'thorough': dict(bounds='k2d0+k1d1', horizon=8)}
 ORIGIN = {'S': ('Source', 'source'), 'M': ('Mk',)}
 
 
